@@ -88,6 +88,8 @@ pub struct Model {
     pub anc: Vec<BTreeSet<usize>>,
     /// per kind: record id -> direct nodes
     pub recs: [BTreeMap<u32, BTreeSet<usize>>; 3],
+    /// when the model was taken from an ontology's read API: per kind, per node, the record ids the term carries
+    pub obs_linked: Option<[Vec<BTreeSet<u32>>; 3]>,
 }
 
 impl Model {
@@ -119,10 +121,45 @@ impl Model {
                 e.insert(d as usize);
             }
         }
-        Model { n, ids: ids(c.idmap, n), parents, children, anc, recs }
+        Model { n, ids: ids(c.idmap, n), parents, children, anc, recs, obs_linked: None }
+    }
+    /// The same case as the ontology's own read API presents it: links, closure, inherited annotation sets and
+    /// records are what the ontology reports. Oracles of the *downstream* properties (information content,
+    /// similarities, enrichment, sets, categories, ancestor algebra) are evaluated against this view, so that each of
+    /// them judges only its own layer: a defect in the closure or in the inheritance is C01's / C02's to report.
+    pub fn observed(&self, ont: &Ontology) -> Model {
+        let idx = |id: u32| self.ids.iter().position(|&x| x == id);
+        let mut parents = vec![BTreeSet::new(); self.n];
+        let mut children = vec![BTreeSet::new(); self.n];
+        let mut anc = vec![BTreeSet::new(); self.n];
+        let mut obs: [Vec<BTreeSet<u32>>; 3] = [vec![BTreeSet::new(); self.n], vec![BTreeSet::new(); self.n], vec![BTreeSet::new(); self.n]];
+        for t in 0..self.n {
+            if let Some(h) = ont.hpo(self.ids[t]) {
+                parents[t] = h.parent_ids().iter().filter_map(|x| idx(x.as_u32())).collect();
+                children[t] = h.children_ids().iter().filter_map(|x| idx(x.as_u32())).collect();
+                anc[t] = h.all_parent_ids().iter().filter_map(|x| idx(x.as_u32())).collect();
+                obs[0][t] = h.gene_ids().iter().map(|x| x.as_u32()).collect();
+                obs[1][t] = h.omim_disease_ids().iter().map(|x| x.as_u32()).collect();
+                obs[2][t] = h.orpha_disease_ids().iter().map(|x| x.as_u32()).collect();
+            }
+        }
+        let mut recs: [BTreeMap<u32, BTreeSet<usize>>; 3] = Default::default();
+        for g in ont.genes() {
+            recs[0].insert(g.id().as_u32(), g.hpo_terms().iter().filter_map(|x| idx(x.as_u32())).collect());
+        }
+        for g in ont.omim_diseases() {
+            recs[1].insert(g.id().as_u32(), g.hpo_terms().iter().filter_map(|x| idx(x.as_u32())).collect());
+        }
+        for g in ont.orpha_diseases() {
+            recs[2].insert(g.id().as_u32(), g.hpo_terms().iter().filter_map(|x| idx(x.as_u32())).collect());
+        }
+        Model { n: self.n, ids: self.ids.clone(), parents, children, anc, recs, obs_linked: Some(obs) }
     }
     /// records of kind k linked to node t after inheritance
     pub fn linked(&self, k: usize, t: usize) -> BTreeSet<u32> {
+        if let Some(o) = &self.obs_linked {
+            return o[k][t].clone();
+        }
         self.recs[k]
             .iter()
             .filter(|(_, ds)| ds.iter().any(|&d| d == t || self.anc[d].contains(&t)))
@@ -365,8 +402,9 @@ fn check_c02_on(m: &Model, ont: &Ontology) -> Check {
 }
 
 pub fn check_c03(c: &Case) -> Check {
-    let m = Model::new(c);
+    let m0 = Model::new(c);
     let ont = build(c, false)?;
+    let m = m0.observed(&ont);
     for t in 0..m.n {
         let h = ont.hpo(m.ids[t]).ok_or("term missing")?;
         let ic = h.information_content();
@@ -556,8 +594,9 @@ pub fn check_c12_groups(thorough: bool) -> Result<usize, String> {
 }
 
 pub fn check_c12(c: &Case) -> Check {
-    let m = Model::new(c);
+    let m0 = Model::new(c);
     let ont = build(c, false)?;
+    let m = m0.observed(&ont);
     for t in 0..m.n {
         for u in 0..m.n {
             let a = ont.hpo(m.ids[t]).unwrap();
@@ -594,6 +633,8 @@ pub fn check_c19(c: &Case) -> Check {
         };
     }
     let ont = res?;
+    // links and closure as the ontology reports them (C01 judges those)
+    let m = m.observed(&ont);
     let modifier: BTreeSet<usize> = m.children[0].iter().copied().filter(|&x| x != 1).collect();
     let mut cats = modifier.clone();
     cats.extend(m.children[1].iter().copied());
@@ -612,14 +653,16 @@ pub fn check_c19(c: &Case) -> Check {
 }
 
 pub fn check_c13(c: &Case) -> Check {
-    let m = Model::new(c);
-    if m.n < 2 {
+    let m0 = Model::new(c);
+    if m0.n < 2 {
         return Ok(());
     }
     let ont = build(c, true)?;
-    let modifier: BTreeSet<usize> = m.children[0].iter().copied().filter(|&x| x != 1).collect();
-    let mut cats = modifier.clone();
-    cats.extend(m.children[1].iter().copied());
+    // closure, inherited annotations, modifier roots and categories as the ontology reports them (C01/C02/C19 judge those)
+    let m = m0.observed(&ont);
+    let node = |id: u32| m.ids.iter().position(|&x| x == id);
+    let modifier: BTreeSet<usize> = ont.modifier().iter().filter_map(|x| node(x.as_u32())).collect();
+    let cats: BTreeSet<usize> = ont.categories().iter().filter_map(|x| node(x.as_u32())).collect();
     for mask in 0..(1u32 << m.n) {
         let members: BTreeSet<usize> = (0..m.n).filter(|k| mask >> k & 1 == 1).collect();
         let g = group_of(&m.idset(&members));
@@ -1218,8 +1261,9 @@ fn dist_up(m: &Model, t: usize, c: usize) -> Option<usize> {
 }
 
 pub fn check_c04(c: &Case) -> Check {
-    let m = Model::new(c);
+    let m0 = Model::new(c);
     let ont = build(c, false)?;
+    let m = m0.observed(&ont);
     let kinds = [InformationContentKind::Gene, InformationContentKind::Omim, InformationContentKind::Orpha];
     for (ki, kind) in kinds.iter().enumerate() {
         for t in 0..m.n {
@@ -1396,8 +1440,9 @@ fn hyper_tail(nn: u64, kk: u64, n: u64, k: u64) -> f64 {
 
 pub fn check_c06(c: &Case) -> Check {
     use hpo::stats::hypergeom::{gene_enrichment, omim_disease_enrichment, orpha_disease_enrichment};
-    let m = Model::new(c);
+    let m0 = Model::new(c);
     let ont = build(c, false)?;
+    let m = m0.observed(&ont);
     let nn = m.n as u64;
     for mask in 1..(1u32 << m.n) {
         let sample: Vec<usize> = (0..m.n).filter(|k| mask >> k & 1 == 1).collect();
@@ -1561,14 +1606,11 @@ pub fn check_c08(c: &Case) -> Check {
         return Ok(());
     }
     let m = Model::new(c);
-    // reference: the same facts through the Builder (names cut to the documented limit)
     for version in [1u8, 2, 3] {
         let mut cv = c.clone();
         if version < 3 {
             cv.facts.retain(|f| f.0 != 2);
         }
-        let reference = walk_with(&build(&cv, true)?, true);
-        let reference = if version == 1 { reference.replacen("v0000-00-00", "v0000-00-00", 1) } else { reference };
         for reverse in [false, true] {
             let flags: Vec<(bool, u32)> = (0..m.n).map(|t| (t == 2 && version > 1, if t == 3 && version > 1 { m.ids[0] } else { 0 })).collect();
             let enc = Enc { version, reverse, flags: flags.clone(), rename_term: None, rename_rec: None };
@@ -1585,31 +1627,19 @@ pub fn check_c08(c: &Case) -> Check {
                 expect(&format!("v{version} replacement of {}", m.ids[t]), h.replacement_id().map(|x| x.as_u32()), if flags[t].1 != 0 { Some(flags[t].1) } else { None })?;
             }
             expect(&format!("v{version} release version"), ont.hpo_version(), if version == 1 { "0000-00-00".to_string() } else { "2024-03-07".to_string() })?;
-            let w = walk(&ont);
-            // mask what differs by construction: version string, obsolete flags, replacements
-            let norm = |s: &str| -> String {
-                let mut t = s.to_string();
-                if let Some(i) = t.find(" n") {
-                    t = t[i..].to_string();
+            // the decoder's own layer: the facts the file states (terms with name / flags / replacement, direct parents,
+            // records with name and direct terms), read back through the API. Closure, inheritance and information
+            // content of the decoded ontology are derived by the builder functions and are C01/C02/C03's to judge.
+            let expected = variant_facts(&Variant { case: cv.clone(), enc: Some(enc.clone()) });
+            let got = api_facts(&ont);
+            expect(&format!("v{version} (record order reversed: {reverse}): number of terms"), ont.len(), m.n)?;
+            if got.terms != expected.terms {
+                return Err(format!("a v{version} file (record order reversed: {reverse}) decodes to different terms than it describes:\n decoded:  {:?}\n described: {:?}", got.terms, expected.terms));
+            }
+            for kind in 0..3 {
+                if got.recs[kind] != expected.recs[kind] {
+                    return Err(format!("a v{version} file (record order reversed: {reverse}) decodes to different records of kind {kind} than it describes:\n decoded:  {:?}\n described: {:?}", got.recs[kind], expected.recs[kind]));
                 }
-                let re_obs = ["obstrue", "obsfalse"];
-                for r in re_obs {
-                    t = t.replace(r, "obs_");
-                }
-                let mut out = String::new();
-                let mut rest = t.as_str();
-                while let Some(i) = rest.find(" rep") {
-                    out += &rest[..i];
-                    let tail = &rest[i + 4..];
-                    let j = tail.find(" p").unwrap_or(0);
-                    out += " rep_";
-                    rest = &tail[j..];
-                }
-                out += rest;
-                out
-            };
-            if norm(&w) != norm(&reference) {
-                return Err(format!("a v{version} file (record order reversed: {reverse}) decodes to a different ontology than the one it describes:\n decoded:  {w}\n expected: {reference}"));
             }
             // the damage sweeps cost one decode per byte of the file: done on every case up to 3 terms, and on a fixed
             // subset of the larger ones (more of them in the thorough tier)
@@ -1724,7 +1754,32 @@ fn ids_of(v: Option<&Vec<HpoTermId>>) -> BTreeSet<u32> {
     v.map(|v| v.iter().map(|x| x.as_u32()).collect()).unwrap_or_default()
 }
 
-fn compare_expect(old: &Ontology, new: &Ontology, fo: &Facts, fnw: &Facts) -> Check {
+/// what an ontology contains according to its own read API (names, direct parents, flags, records with direct terms)
+fn api_facts(ont: &Ontology) -> Facts {
+    let mut terms = BTreeMap::new();
+    for t in ont.iter() {
+        terms.insert(
+            t.id().as_u32(),
+            (t.name().to_string(), t.parent_ids().iter().map(|x| x.as_u32()).collect(), t.is_obsolete(), t.replacement_id().map(|x| x.as_u32())),
+        );
+    }
+    let mut recs: [BTreeMap<u32, (String, BTreeSet<u32>)>; 3] = Default::default();
+    for g in ont.genes() {
+        recs[0].insert(g.id().as_u32(), (g.name().to_string(), grp(g.hpo_terms())));
+    }
+    for g in ont.omim_diseases() {
+        recs[1].insert(g.id().as_u32(), (g.name().to_string(), grp(g.hpo_terms())));
+    }
+    for g in ont.orpha_diseases() {
+        recs[2].insert(g.id().as_u32(), (g.name().to_string(), grp(g.hpo_terms())));
+    }
+    Facts { terms, recs }
+}
+fn compare_expect(old: &Ontology, new: &Ontology, _fo: &Facts, _fnw: &Facts) -> Check {
+    // the comparison is judged against what the two ontologies contain according to their own read API: whether they
+    // were built correctly from the facts is for C01/C02/C07/C08 to say
+    let (fo_api, fnw_api) = (api_facts(old), api_facts(new));
+    let (fo, fnw) = (&fo_api, &fnw_api);
     let cmp = old.compare(new);
     let ids_old: BTreeSet<u32> = fo.terms.keys().copied().collect();
     let ids_new: BTreeSet<u32> = fnw.terms.keys().copied().collect();
